@@ -102,6 +102,7 @@ PROPS = {
         "oracle": "reference model of the original diagram over the history of the re-parsed one + field-by-field model comparison",
     },
     "C19": {
+        "race": True, "race_clause": "C19/data-race",
         "level_text": "uniqueness of builder ids under the simulator's clock (the builders seed their id source from the clock) and executability of the builder output (each activity requested once, in insertion order, completion) are decided by seeded simulation; referential integrity, layout geometry and round-trip survival are deterministic checks on the same builder outputs (DESIGN.md section 6)",
         "level_note": "sampling, not proof; math/rand's global source is re-seeded per run for replayability; a sub-process added without content is a known finding",
         "level": "exploration", "quick_s": 30, "thorough_s": 600, "thorough_seeds": 4,
